@@ -187,6 +187,14 @@ func (h Handler) HandleIQ(iq stanza.IQ, r xmlstream.TokenReadEncoder, start *xml
 	if err != nil {
 		return err
 	}
+	if h.Get == nil {
+		// A handler registered without going through Handle.
+		_, err = xmlstream.Copy(r, iq.Error(stanza.Error{
+			Type:      stanza.Cancel,
+			Condition: stanza.ItemNotFound,
+		}))
+		return err
+	}
 	outData, err := h.Get(data.CID)
 	stanzaErr := stanza.Error{}
 	switch ok := errors.As(err, &stanzaErr); {
